@@ -7,12 +7,26 @@ KS = [0, 1, 2, 3, 10]
 
 def run(ck):
     infer.run_prop(ck, "C06", KS)
+    # end to end: run -> store rows -> stub classes, through the real CLI (shared worker with C01)
+    from vf import core
+    from vf.props import c01
+
+    specs = c01.program_specs(ck, 24 if ck.tier == "quick" else 300, prop="C06", full=False)
+    n = min(core.NPROC, len(specs))
+    for r in core.pmap("vf.props.c01:work", [{"programs": specs[i::n]} for i in range(n)], timeout=3400):
+        if r is None or "harness_error" in r or "mt_exception" in r:
+            ck.merge(r)
+        else:
+            ck.merge(r["C06"])
+    ck.need("stored_rows_scanned", 1000)
+    ck.need("stored_typeddict_nodes", 100)
+    ck.need("stub_typeddict_classes", 50)
     ck.need("td_nodes_seen", 2000)
     ck.need("dict_at_limit", 100, "no dict at size exactly k")
     ck.need("dict_over_limit_by_one", 100, "no dict at size k+1")
     ck.need("merged_keyset_over_limit", 100, "no merged key-set exceeding k")
     ck.need("nonstr_key_dict", 100)
-    return ck.finish(rule=infer.RULES["C06"], assumptions=["which dicts may become TypedDicts is the statement itself: all keys str, 1 <= size <= k"])
+    return ck.finish(rule=infer.RULES["C06"] + "; end to end: generated programs run through `monkeytype run` at each k, every stored row scanned for TypedDict nodes through an independent sqlite3 connection, every `class ...(TypedDict)` of the stubs measured against k", assumptions=["which dicts may become TypedDicts is the statement itself: all keys str, 1 <= size <= k"])
 
 
 def replay(ck, path):
